@@ -40,6 +40,19 @@ out+=['',f'{det} of {n} seeded changes are caught by the check of the property t
  'dropping the 1001st entity (`tombstone-of-this-entity-is-part-of-the-batch-flushed…`); C02 exhausted reverse iterator',
  'forgetting its position (iterator.go under contract); C06 early `break` in the point-in-time scan (`scan-stops-only-when…`);',
  'earlier waves: see the commit messages of /verif (`Strengthen C05 C07 C09 C15 C19 after wave-3 mutations`, …).','',
+ 'Wave 10 (seeds m5/m6, C01 m7/m8; the agents were told to stay away from the obvious function): 25 of its 40 changes were first',
+ 'missed. What was added for them: the timestamp obligations of the two writers attributed to C01/C03/C06 (three agents',
+ 'independently moved `txnTime` in front of the locks of `ExecuteTransaction`); reverse change feed writes every entry it moved',
+ 'past (`getChangesHandler`), token codec `safe conv`; `GetManyRelatedEntitiesAtTime` hands on every relation of a start point;',
+ '`moveValue` attributed to C04/C14; `Store.idtxn` guarded by the (interface-held) id lock, `lock:held-at-use` for maps read',
+ 'out of guarded fields (`BadgerAccess`); latest pointer read in the page\'s own transaction; listing bounded by the addressed',
+ 'dataset for any token (the token precondition was dropped); change page ends only when exhausted or full; HTTP sink sync',
+ 'headers, `startFullSync`; `JavascriptTransform.transformEntities`, `HTTPDatasetSource.ReadEntities` (closing page),',
+ '`handleJobError` keys, `job.Run` handler reset only with the ticket, `toTriggeredJobs` (one pipeline per trigger);',
+ '`findChangeLogKeys` (iterator-owned buffers), the EGDM shim split rule, `updateDataset` namespace persistence,',
+ '`NewTokenProviders` lower-case keys, `NewAuthorizer`, `ExecuteTransaction` counters (`loop N exit` anchors),',
+ '`NewBackupManager` cursor, `Store.Delete`. Two older seeds (C04-m1, C04-m3) were ported onto the tree after fix b295dc0',
+ '(`patch.orig.diff` keeps the original).','',
  'Hand-made must-fail corpus: `selftest/mutants/*.patch` ('+str(len(glob.glob('/verif/selftest/mutants/*.patch')))+' mutants, each with the obligation it must fail in its `.json`),',
  'run together with the seeds by `selftest/run.sh`.','']
 txt='\n'.join(out)
